@@ -44,7 +44,9 @@ func verifIsT(target string, v any) bool {
 // 8 FHIR boolean 9 FHIR integer 10 FHIR string 11 FHIR decimal 12 complex element
 // 13 FHIR time 14 FHIR date 15 FHIR dateTime 16 FHIR Quantity (elements reached by navigation: the result of a
 // conversion must be the System value, not the element handed back)
-const verifInputKinds = 17
+// 17 a FHIR decimal element that is well-formed but has no System value (an exponent beyond what the library reads):
+// like a complex element it converts to nothing - empty, not an error
+const verifInputKinds = 18
 
 func verifConvInput(kind int) (any, bool) {
 	switch kind {
@@ -100,6 +102,8 @@ func verifConvInput(kind int) (any, bool) {
 	case 15:
 		p := []dtpb.DateTime_Precision{dtpb.DateTime_DAY, dtpb.DateTime_SECOND, dtpb.DateTime_MILLISECOND}[verifrt.Choose("in.fdtp", 3)]
 		return &dtpb.DateTime{ValueUs: 1000 * int64(verifrt.NondetIntRange("in.fdt.ms", 1704067200000, 1704067200000+400*86400000)), Precision: p, Timezone: "Z"}, true
+	case 17:
+		return &dtpb.Decimal{Value: []string{"1e200000", "-1E+999999", "1e-200000"}[verifrt.Choose("in.hugeExp", 3)]}, true
 	case 16:
 		return &dtpb.Quantity{Value: &dtpb.Decimal{Value: []string{"1", "1.5", "-2.50"}[verifrt.Choose("in.fqv", 3)]}, Code: &dtpb.Code{Value: []string{"mg", "1", "days"}[verifrt.Choose("in.fqu", 3)]}}, true
 	default:
